@@ -592,6 +592,9 @@ package kv
 //@   modifies lists, listNext, listTruncated, listedKeys, lastPutPrefix, lastPutName, lastPutOK, puts, deletes, deleteFailures, traceCut, s.cfg.Storage.Prefix
 //@   ensures never-writes: puts == old(puts) && deletes == old(deletes)
 //@   at call:funcvalue assert reported-entry-is-older-than-its-successor: gv.ModEpochNanos < r.cutoff
+//@   at call:funcvalue assert reported-entry-is-the-stored-one-and-not-before-after: arg0 == tm(gv.ModEpochNanos) && arg1 == gv.Value && !(ns(tm(gv.ModEpochNanos)) < ns(after))
+//@   at call:kv.Open assert walks-on-only-if-asked-and-to-the-recorded-predecessor: keepGoing && gv.PreviousRoot != "" && arg3.ReadOnly && len(arg3.OnlyVersions) == 1 && arg3.OnlyVersions[0] == gv.PreviousRoot
+//@   at call:kv.Open#2 assert merge-sources-of-the-predecessor-read-only: arg3.ReadOnly && len(arg3.OnlyVersions) == 1 && arg3.OnlyVersions[0] == source
 //@   at call:funcvalue ghost traceCut = gv.ModEpochNanos
 //@   loop 1 invariant puts == old(puts) && deletes == old(deletes) && s.cfg != nil && s.cfg.Storage != nil && s.s3Client != nil
 //@   loop 1 invariant forall j int :: imp(0 <= j && j < len(round), round[j].db != nil && round[j].db.crdt.Mast != nil)
